@@ -64,6 +64,8 @@ class Known:
         self.open_buckets = {e["bucket"]: e for e in self.entries if e["status"] == "open"}
 
     def is_open(self, bucket) -> bool:
+        if os.environ.get("VK_IGNORE_KNOWN") == "1":  # triage only: re-shrink a reproducer of an open finding
+            return False
         return bucket in self.open_buckets
 
 
